@@ -34,6 +34,12 @@
            does ([inv_conditions]), so does the walker.  First client at the
            end of the file: the top-level output only grows ([out_grows]).
 
+   Two companions: Proofs/InterpGuard.v (the same principle restricted to the nodes
+   satisfying a guard [deep g n], with a separate predicate for the walks of callees'
+   template nodes -- for properties that are false of some node kinds) and
+   Proofs/InterpRel.v (the relational form: [walk_body cf w n] is parametric in [w];
+   used to show that an instrumented walker is the walker, Proofs/ModeProofs.v).
+
    How to use it (C02/C06/C07/C09/C19): for a uniform invariant instantiate
    [inv_walk] (Part C).  For a relational or otherwise bespoke predicate on
    computations build a [walker_logic] record and apply [walk_logic].  For
@@ -459,8 +465,8 @@ Proof.
     destruct ref; try phi_leaf.
     + destruct (is_nullsafe a); phi_leaf.
     + destruct (is_nullsafe a); phi_leaf.
-    + destruct oi as [i|]; [|phi_leaf]. destruct (i =? -1)%Z; [phi_leaf | apply IH].
-    + destruct k; [phi_leaf | apply IH].
+    + destruct oi as [i|]; [apply IH | phi_leaf].
+    + destruct oi as [i|]; [phi_leaf | apply IH].
 Qed.
 
 Lemma phi_print_dirs l : Phi (print_dirs cf w l).
@@ -604,7 +610,7 @@ Proof.
   - (* NSwitch *) phi_bind; [apply phi_eval | apply phi_switch_cases].
   - (* NCall *)
     destruct (find_template _ name) as [callee|]; [|phi_leaf].
-    phi_bind; [apply phi_call_data|]. phi_bind; [apply phi_call_params | apply phi_call_enter].
+    phi_bind; [apply phi_call_data|]. phi_bind; [apply phi_call_params |]. phi_bind; [phi_leaf | apply phi_call_enter].
   - (* NLetValue *) phi_bind; [apply phi_eval|]. phi_bind; phi_leaf.
   - (* NLetContent *) phi_bind; [apply phi_render_block|]. phi_bind; phi_leaf.
   - (* NMsg *) phi_bind; [apply phi_msg_body | phi_leaf].
